@@ -67,6 +67,9 @@ from __future__ import annotations
 
 import ast
 import builtins
+import collections
+import copy
+import enum
 import io
 import itertools
 import json
@@ -78,6 +81,7 @@ import resource
 import select
 import signal
 import sys
+import threading
 import time
 import types
 import unicodedata
@@ -1125,6 +1129,106 @@ def run_totality_children(deep, par):
     return out
 
 
+# ---- name-independent state handling (clone / fingerprint an implementation object without knowing its fields) ----
+# The harness must not know HOW the engine stores its state (which private attributes, whether counters live in a
+# nested private dataclass, list or deque...).  Everything below walks vars(obj) recursively and decides by TYPE.
+_LOCK_TYPES = (type(threading.Lock()), type(threading.RLock()))
+_ATOM_TYPES = (type(None), bool, int, float, complex, str, bytes, range, type(Ellipsis), type(NotImplemented))
+
+
+def clone_by_value(v, memo=None):
+    """Deep copy of an implementation object by value: containers and objects with a __dict__ are copied
+    recursively (shared references / cycles preserved through `memo`), locks are replaced by fresh ones of the same
+    kind, bound methods are re-bound to the copy of their owner, every other callable (tool bodies, functions,
+    classes) is code, not state, and is shared."""
+    memo = {} if memo is None else memo
+    if isinstance(v, _ATOM_TYPES) or isinstance(v, (enum.Enum, type)):
+        return v
+    i = id(v)
+    if i in memo:
+        return memo[i][0]
+
+    def keep(new):
+        memo[i] = (new, v)  # holds v: its id stays unique for the duration of the copy
+        return new
+
+    if isinstance(v, _LOCK_TYPES):
+        return keep(threading.Lock() if isinstance(v, _LOCK_TYPES[0]) else threading.RLock())
+    if isinstance(v, types.MethodType):
+        return keep(types.MethodType(v.__func__, clone_by_value(v.__self__, memo)))
+    if isinstance(v, (tuple, frozenset)):
+        items = [clone_by_value(x, memo) for x in v]
+        try:
+            return keep(type(v)(items) if type(v) in (tuple, frozenset) else type(v)(*items))
+        except Exception:  # noqa: BLE001
+            return keep(tuple(items) if isinstance(v, tuple) else frozenset(items))
+    if isinstance(v, (list, set, collections.deque, dict)):
+        new = keep(copy.copy(v))  # keeps the concrete type (deque maxlen, defaultdict factory, ...)
+        new.clear()
+        if isinstance(v, dict):
+            for k, x in list(v.items()):
+                new[clone_by_value(k, memo)] = clone_by_value(x, memo)
+        elif isinstance(v, set):
+            new.update(clone_by_value(x, memo) for x in list(v))
+        else:
+            new.extend(clone_by_value(x, memo) for x in list(v))
+        return new
+    if callable(v):
+        return keep(v)
+    d = getattr(v, "__dict__", None)
+    if isinstance(d, dict):
+        try:
+            new = copy.copy(v)  # same class, shallow state (slots included)
+            if new is v:
+                return keep(v)
+        except Exception:  # noqa: BLE001
+            new = object.__new__(type(v))
+        keep(new)
+        for k, x in list(d.items()):
+            new.__dict__[k] = clone_by_value(x, memo)
+        return new
+    try:
+        return keep(copy.deepcopy(v))
+    except Exception:  # noqa: BLE001
+        return keep(v)
+
+
+def state_leaves(v, path=(), out=None, onpath=()):
+    """Flatten an implementation object into {path: printable leaf}: objects with a __dict__ by attribute,
+    dicts by key, sequences by index, sets as one sorted leaf; locks / callables by kind, never by address.
+    A path is a tuple of steps discovered by walking, so nothing here names a field of the library."""
+    out = {} if out is None else out
+    if isinstance(v, enum.Enum):
+        out[path] = f"{type(v).__name__}.{v.name}"
+    elif isinstance(v, _ATOM_TYPES):
+        out[path] = short(v, 400)
+    elif id(v) in onpath or len(path) > 12:
+        out[path] = "<cycle>" if id(v) in onpath else "<deep " + type(v).__name__ + ">"
+    elif isinstance(v, _LOCK_TYPES):
+        out[path] = "<lock>"
+    elif isinstance(v, (set, frozenset)):
+        out[path] = "{" + ", ".join(sorted(repr(sorted(state_leaves(x, (), None, onpath + (id(v),)).items())) for x in v)) + "}"
+    elif isinstance(v, dict):
+        out[path + ("#",)] = f"{type(v).__name__}[{len(v)}]"
+        for k in sorted(v, key=lambda k: short(k, 200)):
+            state_leaves(v[k], path + ("k:" + short(k, 200),), out, onpath + (id(v),))
+    elif isinstance(v, (list, tuple, collections.deque)):
+        out[path + ("#",)] = f"{type(v).__name__}[{len(v)}]"
+        for n, x in enumerate(v):
+            state_leaves(x, path + (n,), out, onpath + (id(v),))
+    elif isinstance(v, types.MethodType):
+        out[path] = "<method " + getattr(v.__func__, "__qualname__", "?") + ">"
+    elif isinstance(getattr(v, "__dict__", None), dict) and not isinstance(v, (type, types.FunctionType, types.ModuleType)):
+        out[path + ("#",)] = "<" + type(v).__name__ + ">"
+        for k in sorted(vars(v), key=str):
+            state_leaves(vars(v)[k], path + ("a:" + str(k),), out, onpath + (id(v),))
+    elif callable(v):
+        out[path] = "<callable " + str(getattr(v, "__qualname__", type(v).__name__)) + ">"
+    else:
+        out[path] = short(v, 400)
+    return out
+
+
 class RosModel:
     """Engine A over the ROS latch: histories of failing / succeeding / hostile calls and repair()."""
     EXPRS = ["1+1", "1/0", "(1).real", f"'{SUR}'", "x" * 10001, "", "rec(1)", "[1, 2]", "[1,2][0]", "getattr(1, 'real')"]
@@ -1141,48 +1245,100 @@ class RosModel:
         return o + [["repair", 0.5], ["repair", 0.25], ["repair", 10.0]]
 
     def clone(self, st):
-        e = mk_engine("rec", silent=st.silent, max_ros=st.max_ros)
-        for k, v in vars(st).items():
-            if k != "tools":
-                e.__dict__[k] = v.copy() if isinstance(v, (list, dict, set)) else v
-        return e
+        return clone_by_value(st)  # every field of the instance, whatever it is called and however deeply it nests
 
-    @staticmethod
-    def _stable_stats(e):
-        d = e.get_statistics()
+    # public statistics that are monotone bookkeeping (a call counter and a sum of measured wall-time efficiencies):
+    # named by their PUBLIC get_statistics() keys; where the instance stores them is found out by behaviour below.
+    MONOTONE_STATS = ("operations_count", "total_atp_produced")
+
+    @classmethod
+    def _stable_stats(cls, e):
+        try:
+            d = dict(e.get_statistics())
+        except Exception as ex:  # noqa: BLE001
+            return ("<statistics not readable>", type(ex).__name__)
         d.pop("total_atp_produced", None)  # depends on measured wall time
         return d
 
+    @staticmethod
+    def _ros_txt(st):
+        """ROS level for messages, through the public getter"""
+        try:
+            return f"{st.get_ros_level():.2f}"
+        except Exception:  # noqa: BLE001
+            return "<unreadable>"
+
     def selfcheck_clone(self):
-        """snapshot must be indistinguishable from replay on fresh objects (a field added later must not escape)"""
+        """A snapshot must be indistinguishable from a replay of the same public history on fresh objects, and
+        stepping it must leave its source untouched (a field added later, or state moved into a nested object, must
+        not escape or be shared).  -> None when faithful, else a description of the first divergence."""
         from mc import explore
         hist = [["m", 1, "auto"]] * 3 + [["repair", 0.25], ["m", 0, "auto"], ["m", 2, "logic"], ["m", 6, "auto"]]
-        for root in self.roots():
-            a = explore.rebuild(self, root, hist)
-            b = self.clone(explore.rebuild(self, root, hist))
-            for op in self.ops(a):
-                x, y = self.clone(a), self.clone(b)
-                rx, ry = self.step(x, op), self.step(y, op)
-                if rx != ry or self.canon(x) != self.canon(y) or self._stable_stats(x) != self._stable_stats(y):
-                    raise common.HarnessError(f"ROS model clone diverges from replay at {root} {op}")
+        try:
+            for root in self.roots():
+                for op in self.ops(None):
+                    ref = explore.rebuild(self, root, hist)
+                    src = explore.rebuild(self, root, hist)
+                    before = (self.canon(src), self._stable_stats(src))
+                    x = self.clone(src)
+                    y = self.clone(x)
+                    seen = [(self.step(e, op), self.canon(e), self._stable_stats(e)) for e in (ref, x, y)]
+                    if seen[1] != seen[0] or seen[2] != seen[0]:
+                        return f"snapshot diverges from replay at {root} {op}"
+                    if (self.canon(src), self._stable_stats(src)) != before:
+                        return f"stepping a snapshot changed its source at {root} {op}"
+        except Exception as e:  # noqa: BLE001 - a crash of the snapshot machinery is a reason to go without it
+            return f"snapshot machinery raised {type(e).__name__}: {short(e, 120)}"
+        return None
 
-    # instance fields that cannot carry behaviour: a wall-time sum and a call counter, both monotone and read only by
-    # the statistics getters.  EVERY other field of the instance (also one a later change adds: a cache, a log) is
-    # part of the canonical state, so that two histories are merged only if the whole instance agrees.
-    IGNORED_FIELDS = ("_total_atp_produced", "_operations_count")
+    # Instance state that cannot carry behaviour: the storage of the two monotone public statistics (read only by
+    # the statistics getters).  Located BY BEHAVIOUR, not by name: drive a fresh engine through a fixed sequence of
+    # public calls and keep the paths (see state_leaves) whose leaf equals the reported statistic at every point of
+    # the sequence, for a statistic that never decreased and did increase.  EVERY other leaf of the instance (also
+    # one a later change adds: a cache, a log, a nested ledger) is part of the canonical state, so that two histories
+    # are merged only if the whole instance agrees.
+    PROBE_OPS = (["m", 0, "auto"], ["m", 1, "auto"], ["m", 4, "auto"], ["m", 0, "logic"], ["repair", 0.25],
+                 ["m", 7, "auto"], ["m", 1, "logic"], ["m", 6, "auto"], ["m", 5, "auto"], ["repair", 10.0], ["m", 0, "auto"])
+
+    def volatile_paths(self):
+        if getattr(self, "_volatile", None) is None:
+            per_root = []
+            for root in self.roots():
+                try:
+                    st = self.build(root)
+                    points = []
+                    for op in (None,) + tuple(self.PROBE_OPS):
+                        if op is not None:
+                            self.step(st, op)
+                        points.append((state_leaves(st), dict(st.get_statistics())))
+                    vol = set()
+                    for name in self.MONOTONE_STATS:
+                        vals = [stats.get(name) for _, stats in points]
+                        if not all(isinstance(x, (int, float)) and not isinstance(x, bool) for x in vals):
+                            continue
+                        if any(b < a for a, b in zip(vals, vals[1:])) or vals[-1] <= vals[0]:
+                            continue  # not a monotone counter on this tree: its storage stays in the key
+                        mirror = [short(x, 400) for x in vals]
+                        vol |= {path for path in points[0][0]
+                                if all(lv.get(path) == m for (lv, _), m in zip(points, mirror))}
+                    per_root.append(vol)
+                except Exception:  # noqa: BLE001 - nothing is excluded on a tree where the probe cannot run
+                    per_root.append(set())
+            self._volatile = frozenset(set.intersection(*per_root)) if per_root else frozenset()
+        return self._volatile
 
     def canon(self, st):
         # exact float: rounding would make "latched" depend on which history reached the state first.  Read through
-        # the public observers (what a caller can see), plus a fingerprint of the remaining instance fields.
+        # the public observers (what a caller can see), plus a fingerprint of the remaining instance state.
         try:
-            rest = tuple(sorted((k, sorted(v) if k == "tools" and isinstance(v, dict) else short(v, 400))
-                                for k, v in vars(st).items() if k not in self.IGNORED_FIELDS))
+            vol = self.volatile_paths()
+            rest = tuple(sorted((repr(path), leaf) for path, leaf in state_leaves(st).items() if path not in vol))
         except Exception:  # noqa: BLE001
-            rest = ("<instance fields not readable>",)
+            rest = ("<instance state not readable>",)
         try:
             return (repr(st.get_ros_level()), st.get_statistics()["health"] != "healthy", rest)
         except Exception:  # noqa: BLE001
-            return (repr(getattr(st, "_ros_accumulated", None)), None, rest)
+            return ("<public observers not readable>", None, rest)
 
     def observe(self, st):
         return repr(self.canon(st))
@@ -1201,15 +1357,15 @@ class RosModel:
         if res in ("raise", "badtype"):
             return [(f"raises:{detail}:{'silent' if st.silent else 'nonsilent'}",
                      f"Mitochondria(silent={st.silent}).metabolize({short(expr, 40)}) raised {detail} "
-                     f"at ROS level {st._ros_accumulated:.2f}; expected a MetabolicResult")]
+                     f"at ROS level {self._ros_txt(st)}; expected a MetabolicResult")]
         out = []
         if ran and not (op[2] in ("auto", "tool") and root_call_name(expr) == "rec"):
             out.append((f"tool-ran-unaddressed:{op[2]}", f"tool body ran for {expr!r} on pathway {op[2]} at ROS level "
-                                                         f"{st._ros_accumulated:.2f}"))
+                                                         f"{self._ros_txt(st)}"))
         if op[1] in self.FORBIDDEN:
             j = judge_conf(self.FORBIDDEN[op[1]], "strict", None, expr, op[2], "rec", res, detail, value, ran)
             if isinstance(j, tuple):
-                out.append((j[0], j[1] + f" [at ROS level {st._ros_accumulated:.2f} of max_ros={st.max_ros}]"))
+                out.append((j[0], j[1] + f" [at ROS level {self._ros_txt(st)} of max_ros={st.max_ros}]"))
         return out
 
 
@@ -2516,19 +2672,27 @@ def run(ctx):
     distinct += len(prefixes) * len(HISTORY_CASES) * 2
     ctx.sample({"sub": "history", "prefix": [list(hops[2]), list(hops[-5])], "expr": "rec(1)", "entry": "auto"})
     lap("answers+history")
-    # ---- ROS latch histories (engine A).  Runs after the history family: when an engine's behaviour depends on
-    # something outside the instance (which that family reports), the snapshot/replay self-check of this model
-    # cannot hold and the search is skipped with a note instead of discarding the violations already found.
+    # ---- ROS latch histories (engine A).  Runs after the history family.  States are snapshots taken by a generic
+    # by-value copy of the instance; when the snapshot/replay self-check does not hold on this tree (e.g. behaviour
+    # depends on something outside the instance, which the history family reports) the search goes on without
+    # snapshots, rebuilding every state by replaying its public-call history.  What remains inconsistent after that
+    # (explore's canonical-key validation) is deferred instead of discarding the violations already found.
     from mc import explore
     ros_depth = 30 if quick else 60
     try:
-        RosModel().selfcheck_clone()
-        ros = explore.explore(RosModel(), ctx, ros_depth, nproc=1, label="ros", validate_canon=40, max_states=ROS_MAX_STATES)
+        ros_model = RosModel()
+        bad_snapshot = ros_model.selfcheck_clone()
+        if bad_snapshot:
+            # go without snapshots: every state is rebuilt by replaying its public-call history on fresh objects
+            ros_model.clone = None
+            ctx.note(f"ROS history search: {bad_snapshot}; states are rebuilt by replay instead of snapshots")
+        ctx.stats["ros.snapshots_used"] += 0 if bad_snapshot else 1
+        ros = explore.explore(ros_model, ctx, ros_depth, nproc=1, label="ros", validate_canon=40, max_states=ROS_MAX_STATES)
     except common.HarnessError as e:
         # deferred: only ends the run with exit 2 if no engine of this check finds a violation at all
         ctx.defer_harness_error(f"ROS history search: {e}")
-        ctx.note(f"ROS history search skipped: {e} (if the engine's state is not confined to the instance - which the "
-                 f"history families report - state snapshots are not faithful on this tree)")
+        ctx.note(f"ROS history search abandoned: {e} (if the engine's state is not confined to the instance - which the "
+                 f"history families report - two replays of one history need not agree on this tree)")
         ros = {"states": 1, "transitions": 1, "fixpoint": False, "depth_completed": 0, "capped": False}
     total += ros["transitions"]
     lap("ros")
